@@ -311,3 +311,21 @@ def random_labware(rng, small=True, maxunits=16, nlw=None, big_geom=False):
 def header(pid, dev, unit, wlmax, lws, autosplit=True, diti=False, flags=None, pair=False):
     return {"id": pid, "dev": dev, "unit": [unit.numerator, unit.denominator] if isinstance(unit, Fraction) else list(unit),
             "wl": {"maxv": wlmax, "autosplit": autosplit, "diti": diti}, "lw": lws, "flags": dict(flags or {}), "pair": pair}
+
+
+def random_kw(rng):
+    """Valid pass-through keyword arguments for aspirate/dispense records."""
+    kw = {}
+    if rng.random() < 0.7:
+        kw["lc"] = rng.choice(["Water_FD", "Trough_Water_FD_AspLLT", "x", "\u00b5-class"])
+    if rng.random() < 0.5:
+        n = rng.randint(1, 4)
+        if rng.random() < 0.3:
+            kw["tip"] = {"k": "one", "s": rng.choice([["int", rng.randint(1, 8)], ["tip", rng.randint(1, 8)], ["any"]])}
+        else:
+            kw["tip"] = {"k": "coll", "x": [[rng.choice(["int", "tip"]), rng.randint(1, 8)] for _ in range(n)],
+                         "present": rng.choice(["list", "tuple"])}
+    for f in ("rackid", "racktype", "tube", "frt"):
+        if rng.random() < 0.3:
+            kw[f] = rng.choice(["id-1", "Greiner 96", "X" * 32, "b"])
+    return kw
